@@ -115,17 +115,25 @@ class Workspace:
         f = self.files[rel]
         k = f["kind"]
         if k == "default":
-            o = ["config_version: %s" % q(f.get("version", "1.0")), "schema_list:"]
-            o += ["  - schema: %s" % s for s in f["schema_list"]] or []
-            if not f["schema_list"]:
-                o[-1] = "schema_list: []"
+            o = ["config_version: %s" % q(f["version"] if "version" in f else "1.0")] if f.get("version", "1.0") is not None else ["other_key: 1"]
+            if f["schema_list"] is not None:
+                # an entry starting with `!` is written as it stands (an item that is no map, a map without `schema`)
+                o += ["schema_list:"] + [("  - %s" % s[1:]) if s.startswith("!") else ("  - schema: %s" % s) for s in f["schema_list"]]
+                if not f["schema_list"]:
+                    o[-1] = "schema_list: []"
             o += ["menu:", "  page_size: %d" % f.get("page_size", 5)]
             if f.get("pad"):
                 o += ["zz_pad:"] + ["  key_%04d: value_%04d_%s" % (i, i, "x" * 12) for i in range(f["pad"])]
             return "\n".join(o) + "\n"
         if k == "schema":
             sid = f["sid"]
-            o = ["schema:", "  schema_id: %s" % sid, "  name: %s" % sid.upper(), "  version: %s" % q(f.get("version", "1"))]
+            if f.get("broken") == "unparsable":
+                return "schema: [unclosed\n  schema_id: %s\n" % sid
+            o = ["schema:", "  schema_id: %s" % sid, "  name: %s" % sid.upper(), "  version: %s" % q(f.get("version", "1") or "")]
+            if f.get("broken") == "no_id":
+                del o[1]
+            if f.get("version", "1") is None:
+                o.pop()
             if f.get("deps"):
                 o += ["  dependencies:"] + ["    - %s" % d for d in f["deps"]]
             style = f.get("style", "script")
@@ -149,6 +157,8 @@ class Workspace:
                     o += ["  enable_sentence: false", "  enable_user_dict: false"]
             if f.get("import_preset"):
                 o += ["key_binder:", "  import_preset: %s" % f["import_preset"]]
+            if f.get("patch_ref"):     # a patch kept in another file
+                o += ["__patch: %s:/patch" % f["patch_ref"]]
             if f.get("pad"):
                 o += ["zz_pad:"] + ["  key_%04d: value_%04d_%s" % (i, i, "x" * 12) for i in range(f["pad"])]
             return "\n".join(o) + "\n"
@@ -168,6 +178,11 @@ class Workspace:
             if not f["patch"]:
                 o = ["patch: {}"]
             return "\n".join(o) + "\n"
+        if k == "preset":          # a file reached only through `key_binder/import_preset: <name>` of a schema
+            o = ["key_binder:", "  bindings:"] + ["    - {when: always, accept: %s, send: %s}" % (a, b) for a, b in f["rows"]]
+            if not f["rows"]:
+                o = ["key_binder:", "  bindings: []"]
+            return "\n".join(o) + "\n"
         if k == "config":          # a plain includable config (common.yaml)
             o = ["rules:"] + ["  - %s" % r for r in f["rules"]]
             if not f["rules"]:
@@ -176,8 +191,10 @@ class Workspace:
         if k == "dict":
             o = ["# Rime dictionary", "---", "name: %s" % f["name"], "version: %s" % q(f.get("version", "1")),
                  "sort: %s" % f.get("sort", "by_weight")]
+            if f.get("bad_header"):
+                del o[3]                  # no `version:`: "incomplete dict header"
             if f.get("vocab"):
-                o += ["use_preset_vocabulary: true"]
+                o += ["use_preset_vocabulary: true"] if not f.get("vocabulary") else ["vocabulary: %s" % f["vocabulary"]]
             if f.get("max_phrase_length"):
                 o += ["max_phrase_length: %d" % f["max_phrase_length"]]
             if f.get("min_phrase_weight"):
@@ -189,6 +206,10 @@ class Workspace:
             o += ["...", ""]
             for r in f["rows"]:
                 o.append("\t".join(str(x) for x in r))
+            if f.get("eol") == "crlf":
+                return "\r\n".join(o) + "\r\n"
+            if f.get("eol") == "nofinal":
+                return "\n".join(o)
             return "\n".join(o) + "\n"
         if k == "essay":
             return "".join("%s\t%d\n" % (t, w) for t, w in f["rows"])
@@ -207,7 +228,7 @@ class Workspace:
                 p = os.path.join(root, rel)
                 if os.path.isfile(p) and rel not in want and (
                         n.endswith(".schema.yaml") or n.endswith(".dict.yaml") or n.endswith(".custom.yaml")
-                        or n in ("default.yaml", "essay.txt", "common.yaml")):
+                        or n in ("default.yaml", "essay.txt", "common.yaml", "kb.yaml", "tweaks.yaml", "lexicon.txt")):
                     os.unlink(p)
         for rel, f in self.files.items():
             p = os.path.join(root, rel)
@@ -245,6 +266,8 @@ class Workspace:
         f = self.files[rel]
         dict_, prism, packs, deps = f.get("dict"), f.get("prism"), list(f.get("packs") or []), list(f.get("deps") or [])
         crel = self.resolve(sid + ".custom.yaml")
+        if f.get("patch_ref"):
+            crel = None        # a schema that names its own `__patch` gets no automatic `<id>.custom` patch (AutoPatchConfigPlugin)
         if crel:
             for key, val in ([] if self.files[crel].get("commented") else self.files[crel]["patch"]):
                 if key == "translator/dictionary":
@@ -256,13 +279,14 @@ class Workspace:
                 elif key == "schema/dependencies":
                     deps = list(val)
         return {"dict": dict_, "prism": prism or dict_, "packs": packs, "deps": deps,
-                "include": f.get("include"), "import_preset": f.get("import_preset")}
+                "include": f.get("include"), "import_preset": f.get("import_preset"), "patch_ref": f.get("patch_ref")}
 
     def effective_schema_list(self):
         rel = self.resolve("default.yaml")
         if not rel:
             return None
-        l = list(self.files[rel]["schema_list"])
+        l = self.files[rel]["schema_list"]
+        l = None if l is None else [x for x in l if not x.startswith("!")]
         crel = self.resolve("default.custom.yaml")
         if crel:
             for key, val in ([] if self.files[crel].get("commented") else self.files[crel]["patch"]):
@@ -285,13 +309,19 @@ class Workspace:
         return sorted(s)
 
     def dict_names(self):
-        s = set()
+        # every dictionary source there is (a compiled schema kept from an earlier deployment, because its source no longer
+        # compiles, may still name a dictionary or a pack that no current source names), and every name the sources mention
+        s = set(rel.split("/", 1)[1][:-len(".dict.yaml")] for rel in self.files if rel.endswith(".dict.yaml"))
         for sid in self.all_sids():
             e = self.effective_schema(sid)
             if e and e["dict"]:
                 s.add(e["dict"])
                 s.update(e["packs"])
         return sorted(s)
+
+    def dict_header_ok(self, name):
+        rel = self.resolve(name + ".dict.yaml")
+        return bool(rel) and not self.files[rel].get("bad_header")
 
     def dict_files(self, name, intern):
         """content ids of GetTables() files + vocabulary; 'missing' if an import is missing; [] if absent"""
@@ -307,8 +337,9 @@ class Workspace:
                 return 1, "missing"
             ids.append(self.content_id(r, intern))
         if f.get("vocab"):
-            r = self.resolve("essay.txt")
-            ids.append(self.content_id(r, intern) if r else intern.setdefault("<absent-file>", len(intern) + 1))
+            r = self.resolve((f.get("vocabulary") or "essay") + ".txt")
+            # a missing file feeds no bytes to the checksum, and no phrase to the table: the same as an empty one
+            ids.append(self.content_id(r, intern) if r else intern.setdefault(hashlib.sha256(b"").hexdigest(), len(intern) + 1))
         return 1, ",".join(str(i) for i in ids)
 
     def cfg_deps(self, cfgid):
@@ -322,6 +353,8 @@ class Workspace:
             return None
         e = self.effective_schema(sid)
         deps = [sid + ".schema", sid + ".custom", "default", "default.custom"]
+        if e.get("patch_ref"):
+            deps.remove(sid + ".custom")
         if e["include"]:
             deps += [e["include"], e["include"] + ".custom"]
             if not self.resolve(e["include"] + ".yaml"):
@@ -330,7 +363,66 @@ class Workspace:
             deps += [e["import_preset"], e["import_preset"] + ".custom"]
             if not self.resolve(e["import_preset"] + ".yaml"):
                 return None
+        if e.get("patch_ref"):
+            deps += [e["patch_ref"], e["patch_ref"] + ".custom"]
+            if not self.resolve(e["patch_ref"] + ".yaml"):
+                return None
         return deps
+
+    def deployable(self):
+        """the hypothesis under which a clean deployment is the yardstick (Props/C12 `SourcesOK`): there is a schema list,
+        every listed schema exists, every schema reached is valid and compiles, and the dictionary, imports and packs of
+        each have sources with a header.  (Otherwise the deployer keeps what it built earlier — by design — and a clean
+        deployment has nothing to keep.)"""
+        sl = self.effective_schema_list()
+        if sl is None or self.cfg_deps("default") is None:
+            return False
+        seen, todo = set(), [(s, False) for s in sl]
+        while todo:
+            sid, as_dep = todo.pop(0)
+            if sid in seen:
+                continue
+            seen.add(sid)
+            rel = self.resolve(sid + ".schema.yaml")
+            if not rel:
+                if as_dep:
+                    continue
+                return False
+            if self.files[rel].get("broken") or self.cfg_deps("schema:" + sid) is None:
+                return False
+            e = self.effective_schema(sid)
+            for n in ([e["dict"]] if e["dict"] else []) + (e["packs"] if e["dict"] else []):
+                r = self.resolve(n + ".dict.yaml")
+                if not r or self.files[r].get("bad_header"):
+                    return False
+                if any(not self.resolve(i + ".dict.yaml") for i in (self.files[r].get("imports") or [])):
+                    return False
+            if not as_dep:
+                todo += [(d, True) for d in e["deps"]]
+        return True
+
+    def repair(self):
+        """make the sources deployable again; returns the list of repairs"""
+        done = []
+        for rel in sorted(getattr(self, "attic", {})):
+            self.put(rel, self.attic.pop(rel))
+            done.append("back %s" % rel)
+        for rel in sorted(self.files):
+            f = self.files[rel]
+            if f.get("broken") or f.get("bad_header"):
+                f = {k: v for k, v in f.items() if k not in ("broken", "bad_header", "mtime")}
+                self.put(rel, f)
+                done.append("repaired %s" % rel)
+        if not self.deployable():
+            rel = self.resolve("default.yaml")
+            f = {k: v for k, v in self.files[rel].items() if k != "mtime"}
+            f["schema_list"] = ["sa", "sb"]
+            self.put(rel, f)
+            done.append("list sa,sb")
+            if "user/default.custom.yaml" in self.files and not self.deployable():
+                self.remove("user/default.custom.yaml")
+                done.append("defcustom_off")
+        return done
 
     def describe(self, intern):
         """lines for driver_c12: the model's view of these sources"""
@@ -351,7 +443,7 @@ class Workspace:
         o.append("proj default %s - - - -" % ("none" if sl is None else j(sl)))
         for sid in self.all_sids():
             rel = self.resolve(sid + ".schema.yaml")
-            o.append("schema %s %d %d" % (sid, 1 if rel else 0, 1 if rel else 0))
+            o.append("schema %s %d %d" % (sid, 1 if rel else 0, 1 if rel and not self.files[rel].get("broken") else 0))
             if rel:
                 deps = self.cfg_deps("schema:" + sid)
                 e = self.effective_schema(sid)
@@ -359,8 +451,40 @@ class Workspace:
                 o.append("proj schema:%s none %s %s %s %s" % (sid, e["dict"] or "-", e["prism"] or "-", j(e["packs"]), j(e["deps"])))
         for n in self.dict_names():
             present, files = self.dict_files(n, intern)
-            o.append("dict %s %d %d %s" % (n, present, present, files))
+            o.append("dict %s %d %d %s" % (n, present, 1 if self.dict_header_ok(n) else 0, files))
         return o
+
+    # -- TrashDeprecatedUserCopy (ConfigFileUpdate::Run): a user copy of default.yaml / <id>.schema.yaml that is older than
+    # the shared copy, or of the same version and stamped `.custom.` by the old Customizer, is moved to user/trash
+    def version_of(self, rel):
+        """what GetString(version_key) gives for this file; None: the file does not load or has no such key"""
+        f = self.files[rel]
+        if f["kind"] == "default":
+            return f.get("version", "1.0")
+        if f["kind"] == "schema":
+            return None if f.get("broken") == "unparsable" else f.get("version", "1")
+        return None
+
+    def trash_expected(self, file_name):
+        s, u = "shared/" + file_name, "user/" + file_name
+        if s not in self.files or u not in self.files:
+            return False
+        sv = self.version_of(s) or ""
+        if ".minimal" in sv:
+            sv = sv[:sv.find(".minimal")]
+        uv, customized = self.version_of(u), False
+        if uv is None:
+            uv = ""
+        elif ".custom." in uv:
+            uv, customized = uv[:uv.find(".custom.")], True
+        cmp = compare_version_string(sv, uv)
+        return cmp > 0 or (cmp == 0 and customized)
+
+    def without_user_copies(self, names):
+        v = Workspace.from_json(self.to_json())
+        for n in names:
+            v.files.pop("user/" + n, None)
+        return v
 
     def detect_mtimes(self, root):
         """what DetectModifications scans: the two directories and their top-level *.yaml (not user.yaml)"""
@@ -370,9 +494,32 @@ class Workspace:
             ts.append(os.stat(p).st_mtime_ns // 10**9)      # exact (a float loses the half second past 2^32 s)
             for n in os.listdir(p):
                 fp = os.path.join(p, n)
+                if os.path.islink(fp) and not os.path.exists(fp):
+                    return ["error"]          # fs::canonical(entry) throws for a dangling link, whatever its name
                 if os.path.isfile(fp) and n.endswith(".yaml") and n != "user.yaml":
                     ts.append(os.stat(fp).st_mtime_ns // 10**9)
         return ts
+
+
+def compare_version_string(x, y):
+    """algo/utilities.cc CompareVersionString, statement by statement (a non-digit counts as its distance from '0')"""
+    i = j = 0
+    m, n = len(x), len(y)
+    while i < m or j < n:
+        v1 = v2 = 0
+        while i < m and x[i] != ".":
+            v1 = v1 * 10 + (ord(x[i]) - 48)
+            i += 1
+        i += 1
+        while j < n and y[j] != ".":
+            v2 = v2 * 10 + (ord(y[j]) - 48)
+            j += 1
+        j += 1
+        if v1 > v2:
+            return 1
+        if v1 < v2:
+            return -1
+    return 0
 
 
 REAL_CLOCK_WINDOW = 30 * 86400   # an mtime this close to the real clock was stamped by it, not by the check; every
@@ -439,23 +586,33 @@ def base_workspace(rng, big=False, t0=T0):
     # the last two phrases are made of characters `da` defines (its single-character rows below), so the preset
     # vocabulary really contributes entries to the table of `da`
     w.put("shared/essay.txt", {"kind": "essay", "rows": [["".join(rng.choice(HAN) for _ in range(2)), rng.randint(1, 500)] for _ in range(12)]
-                               + [[HAN[0] + HAN[1], 300], [HAN[2] + HAN[4] + HAN[3], 200]]})
+                               + [[HAN[0] + HAN[1], 300], [HAN[2] + HAN[4] + HAN[3], 200], ["", 5]]})
     # a row whose text is two Latin words: the tab and a space can trade places (see ws_tab)
     w.put("shared/dx.dict.yaml", {"kind": "dict", "name": "dx", "rows": rows(4, sy_a) + [["ok a", "ba", 5]]})
-    w.put("shared/da.dict.yaml", {"kind": "dict", "name": "da", "vocab": True, "imports": ["dx"], "rows": rows(nrows, sy_a, 2) + [[HAN[i], s, 50 + i] for i, s in enumerate(sy_a)]})
-    w.put("shared/pk1.dict.yaml", {"kind": "dict", "name": "pk1", "rows": rows(3, sy_a, 2)})
+    w.put("shared/da.dict.yaml", {"kind": "dict", "name": "da", "vocab": True, "imports": ["dx"], "rows": rows(nrows, sy_a, 2) + [[HAN[i], s, 50 + i] for i, s in enumerate(sy_a)]
+                                  # rows that take their weight from the preset vocabulary: none given, a percentage
+                                  + [[HAN[0] + HAN[1], "a ai"], [HAN[2] + HAN[4] + HAN[3], "an bo ba", "50%"]]})
+    # a pack that lets in the vocabulary's phrases above a weight only (one of the two it could encode)
+    w.put("shared/pk1.dict.yaml", {"kind": "dict", "name": "pk1", "vocab": True, "min_phrase_weight": 250,
+                                   "rows": rows(3, sy_a, 2) + [[HAN[i], sy_a[i], 5] for i in range(5)]})
     w.put("shared/pk2.dict.yaml", {"kind": "dict", "name": "pk2", "rows": rows(3, sy_a, 3)})
     # `db` uses the preset vocabulary too, with filters that let none of its phrases in: what one dictionary asks of the
     # vocabulary must not stick to the next dictionary compiled in the same deployment
     w.put("shared/db.dict.yaml", {"kind": "dict", "name": "db", "sort": "original", "columns": ["text", "code"],
-                                  "vocab": True, "max_phrase_length": 1, "min_phrase_weight": 100000,
+                                  "vocab": True, "vocabulary": "lexicon", "max_phrase_length": 1, "min_phrase_weight": 100000,
                                   "rows": [[HAN[20 + i], "".join(rng.choice("abcd") for _ in range(rng.randint(1, 3)))] for i in range(nrows)]
                                   + [["go to", "ab"]]})
     w.put("shared/common.yaml", {"kind": "config", "rules": ["derive/^zh/z/", "derive/^ch/c/"]})
+    # sources a compiled artefact depends on without naming them where one looks first: a preset reached through
+    # `key_binder/import_preset` (sb), a patch kept in a file of its own (`__patch: tweaks:/patch`, sc), a vocabulary
+    # file of another name (`vocabulary: lexicon`, db)
+    w.put("shared/kb.yaml", {"kind": "preset", "rows": [["Control+k", "Escape"], ["Control+j", "Return"]]})
+    w.put("shared/tweaks.yaml", {"kind": "custom", "patch": [["menu/page_size", 6]]})
+    w.put("shared/lexicon.txt", {"kind": "essay", "rows": [[HAN[20] + HAN[21], 50], [HAN[22], 7]]})
     w.put("shared/sa.schema.yaml", {"kind": "schema", "sid": "sa", "dict": "da", "packs": ["pk1"], "deps": ["sc"],
                                     "algebra": ["abbrev/^([a-z]).+$/$1/"], "include": "common", "pad": 600 if big else 0})
-    w.put("shared/sb.schema.yaml", {"kind": "schema", "sid": "sb", "dict": "db", "style": "table"})
-    w.put("shared/sc.schema.yaml", {"kind": "schema", "sid": "sc", "dict": "da", "prism": "sc", "algebra": ["derive/^sh/s/"]})
+    w.put("shared/sb.schema.yaml", {"kind": "schema", "sid": "sb", "dict": "db", "style": "table", "import_preset": "kb"})
+    w.put("shared/sc.schema.yaml", {"kind": "schema", "sid": "sc", "dict": "da", "prism": "sc", "algebra": ["derive/^sh/s/"], "patch_ref": "tweaks"})
     w.put("shared/default.yaml", {"kind": "default", "schema_list": ["sa", "sb"], "page_size": 5})
     return w
 
@@ -543,22 +700,165 @@ def ws_essay(rng, f, known=""):
     return "essay"
 
 
-def gen_edit(rng, w):
-    """apply one random edit that keeps the sources deployable; returns a description (for the evidence)"""
+VANISHING = ["shared/dx.dict.yaml", "shared/pk1.dict.yaml", "shared/pk2.dict.yaml", "shared/da.dict.yaml", "shared/db.dict.yaml",
+             "shared/common.yaml", "shared/essay.txt", "shared/kb.yaml", "shared/tweaks.yaml", "shared/lexicon.txt"]
+# versions of a user copy next to a shared copy of version "1" / "1.0" (the default of the renderer) or "1.10"
+USER_COPY_VERSIONS = ["1", "1.0", "1.custom.777", "0.9", "2", "1.9", "1.10", "1.10.custom.5", None, "1.0.1", "2.custom.1"]
+SHARED_VERSIONS = ["1", "1.10", "1.minimal", "2.0.minimal", "1.0"]
+EXTRA_KINDS = ["gone", "gone", "back", "back", "schema_break", "schema_fix", "list_odd", "eol", "dict_version", "dict_header",
+               "shadow_old", "shadow_old", "shadow_default", "unshadow_default", "shared_version", "essay_empty", "badrule",
+               "indirect", "indirect", "indirect", "indirect_custom", "old_mtime"]
+
+
+def gen_edit(rng, w, extra=False):
+    """apply one random edit; returns a description (for the evidence).  Without `extra` the sources stay deployable;
+    with it sources also vanish and come back, break and get repaired, and user copies of every vintage appear."""
     def dict_rel(name):
         return w.resolve(name + ".dict.yaml")
 
     def sylls_of(name):
         rel = dict_rel(name)
         s = set()
-        for r in w.files[rel]["rows"]:
+        for r in (w.files[rel]["rows"] if rel else []):
             s.update(str(r[1]).split(" "))
         return sorted(s) or ["a"]
+    if not hasattr(w, "attic"):
+        w.attic = {}
     kinds = ["row_add", "row_del", "row_mod", "algebra_add", "algebra_del", "custom_on", "custom_off", "custom_mod",
              "import_add", "import_del", "pack_add", "pack_del", "list", "essay", "touch", "shadow", "unshadow",
              "deps", "common", "defcustom_on", "defcustom_off", "pad", "ws_syl", "ws_syl", "ws_tab", "ws_essay", "redate"]
+    if extra:
+        kinds = kinds + EXTRA_KINDS
     for _ in range(50):
         k = rng.choice(kinds)
+        if k == "indirect":
+            # an edit to a file that reaches an artefact only indirectly (preset, patch file, named vocabulary), and to nothing else
+            rel = rng.choice(["shared/kb.yaml", "shared/tweaks.yaml", "shared/lexicon.txt"])
+            if rel not in w.files:
+                continue
+            f = copy.deepcopy(w.files[rel])
+            if f["kind"] == "preset":
+                f["rows"] = f["rows"] + [["Control+%s" % rng.choice("abcdefgh"), rng.choice(["Escape", "Return", "space"])]] if rng.random() < 0.7 or not f["rows"] else f["rows"][:-1]
+            elif f["kind"] == "custom":
+                f["patch"] = [["menu/page_size", rng.choice([x for x in range(3, 10) if ["menu/page_size", x] not in f["patch"]])]]
+            else:
+                f["rows"] = f["rows"] + [[rng.choice(HAN[20:30]) + rng.choice(HAN[20:30]), rng.randint(1, 90)]]
+            w.put(rel, f)
+            return "indirect %s" % rel
+        if k == "indirect_custom":
+            name = rng.choice(["kb", "tweaks", "common"])
+            rel = "user/%s.custom.yaml" % name
+            if rel in w.files:
+                w.remove(rel)
+                return "indirect_custom_off %s" % name
+            patch = {"kb": [["key_binder/bindings/+", ["{when: always, accept: Control+z, send: Escape}"]]],
+                     "tweaks": [["patch/menu~1page_size", rng.randint(3, 9)]], "common": [["rules/+", [rng.choice(ALGEBRA_POOL)]]]}[name]
+            w.put(rel, {"kind": "custom", "patch": patch})
+            return "indirect_custom_on %s" % name
+        if k == "old_mtime":
+            # a file copied in with its old modification time (`cp -p`): older than the last build, only the directory shows it
+            sid = rng.choice(["sa", "sb", "sc"])
+            rel = "user/%s.custom.yaml" % sid
+            if rel in w.files:
+                continue
+            w.put(rel, {"kind": "custom", "patch": [["menu/page_size", rng.randint(3, 9)]], "skew": -rng.randint(10**5, 10**6)})
+            return "old_mtime %s" % rel
+        if k == "gone":
+            c = [r for r in VANISHING if r in w.files]
+            if not c or len(w.attic) >= 2:
+                continue
+            rel = rng.choice(c)
+            w.attic[rel] = {x: y for x, y in w.files[rel].items() if x != "mtime"}
+            w.remove(rel)
+            return "gone %s" % rel
+        if k == "back":
+            if not w.attic:
+                continue
+            rel = rng.choice(sorted(w.attic))
+            w.put(rel, w.attic.pop(rel))
+            return "back %s" % rel
+        if k in ("schema_break", "schema_fix"):
+            sid = rng.choice(["sa", "sb", "sc"])
+            rel = w.resolve(sid + ".schema.yaml")
+            f = copy.deepcopy(w.files[rel])
+            if (k == "schema_break") == bool(f.get("broken")):
+                continue
+            if k == "schema_break":
+                f["broken"] = rng.choice(["no_id", "unparsable"])
+            else:
+                f.pop("broken")
+            w.put(rel, f)
+            return "%s %s %s" % (k, sid, f.get("broken", ""))
+        if k == "list_odd":
+            rel = w.resolve("default.yaml")
+            f = copy.deepcopy(w.files[rel])
+            f["schema_list"] = rng.choice([["sa", "ghost"], ["ghost", "sb"], ["sa", "sb", "sa"], ["sb", "sb"], ["!just_a_scalar", "sa"],
+                                           ["sb", "!{note: no schema here}", "sc"], None, [], ["sc", "sa", "sc", "ghost"]])
+            w.put(rel, f)
+            return "list_odd %s" % ("none" if f["schema_list"] is None else ",".join(f["schema_list"]))
+        if k in ("eol", "dict_version", "dict_header"):
+            name = rng.choice(["da", "dx", "db", "pk1", "pk2"])
+            rel = dict_rel(name)
+            if not rel:
+                continue
+            f = copy.deepcopy(w.files[rel])
+            if k == "eol":
+                f["eol"] = rng.choice([x for x in ("lf", "crlf", "nofinal") if x != f.get("eol", "lf")])
+            elif k == "dict_version":
+                f["version"] = str(int(float(f.get("version", "1"))) + 1)
+            else:
+                f["bad_header"] = not f.get("bad_header")
+            w.put(rel, f)
+            return "%s %s %s" % (k, name, f.get("eol") if k == "eol" else f.get("version") if k == "dict_version" else int(f["bad_header"]))
+        if k == "shadow_old":
+            sid = rng.choice(["sa", "sb", "sc"])
+            f = copy.deepcopy(w.files["shared/%s.schema.yaml" % sid])
+            if sid != "sb":
+                f["algebra"] = list(f.get("algebra") or []) + [rng.choice(ALGEBRA_POOL)]
+            else:
+                f["pad"] = rng.choice([1, 2])
+            f["version"] = rng.choice(USER_COPY_VERSIONS)
+            w.put("user/%s.schema.yaml" % sid, {x: y for x, y in f.items() if x != "mtime"})
+            return "shadow_old %s %s" % (sid, f["version"])
+        if k == "shadow_default":
+            f = copy.deepcopy(w.files["shared/default.yaml"])
+            f["page_size"] = rng.randint(3, 9)
+            f["version"] = rng.choice(USER_COPY_VERSIONS)
+            w.put("user/default.yaml", {x: y for x, y in f.items() if x != "mtime"})
+            return "shadow_default %s" % f["version"]
+        if k == "unshadow_default":
+            if "user/default.yaml" not in w.files:
+                continue
+            w.remove("user/default.yaml")
+            return "unshadow_default"
+        if k == "shared_version":
+            rel = rng.choice(["shared/default.yaml", "shared/sa.schema.yaml", "shared/sb.schema.yaml", "shared/sc.schema.yaml"])
+            f = copy.deepcopy(w.files[rel])
+            f["version"] = rng.choice(SHARED_VERSIONS)
+            w.put(rel, f)
+            return "shared_version %s %s" % (rel, f["version"])
+        if k == "essay_empty":
+            rel = w.resolve("essay.txt")
+            if not rel or not w.files[rel]["rows"]:
+                continue
+            f = copy.deepcopy(w.files[rel])
+            f["rows"] = []
+            w.put(rel, f)
+            return "essay_empty"
+        if k == "badrule":
+            sid = rng.choice(["sa", "sc"])
+            rel = w.resolve(sid + ".schema.yaml")
+            f = copy.deepcopy(w.files[rel])
+            alg = list(f.get("algebra") or [])
+            # (not: a rule set that erases every spelling — BuildPrism refuses it, the model has no failing prism build)
+            bad = rng.choice(["derive/x", "nosuchop/a/b/", "xlit/abc/de/"])
+            if bad in alg:
+                alg.remove(bad)
+            else:
+                alg.append(bad)
+            f["algebra"] = alg
+            w.put(rel, f)
+            return "badrule %s %s" % (sid, bad)
         if k in ("row_add", "row_del", "row_mod"):
             name = rng.choice(["da", "dx", "db", "pk1", "pk2"])
             rel = dict_rel(name)
@@ -595,6 +895,8 @@ def gen_edit(rng, w):
             return "%s %s %s" % (k, name, how)
         if k == "ws_essay":
             rel = w.resolve("essay.txt")
+            if not rel:
+                continue
             f = copy.deepcopy(w.files[rel])
             known = "".join(str(r[0]) for n in ("da", "dx") if dict_rel(n) for r in w.files[dict_rel(n)]["rows"])
             if not ws_essay(rng, f, known):
@@ -652,6 +954,8 @@ def gen_edit(rng, w):
         if k in ("import_add", "import_del"):
             name = rng.choice(["da", "db"])
             rel = dict_rel(name)
+            if not rel:
+                continue
             f = copy.deepcopy(w.files[rel])
             imps = list(f.get("imports") or [])
             if k == "import_add":
@@ -689,6 +993,8 @@ def gen_edit(rng, w):
             return "list %s" % ",".join(f["schema_list"])
         if k == "essay":
             rel = w.resolve("essay.txt")
+            if not rel:
+                continue
             f = copy.deepcopy(w.files[rel])
             if rng.random() < 0.5 and len(f["rows"]) > 3:
                 f["rows"].pop(rng.randrange(len(f["rows"])))
@@ -726,6 +1032,8 @@ def gen_edit(rng, w):
             return "deps %s" % ",".join(f["deps"])
         if k == "common":
             rel = w.resolve("common.yaml")
+            if not rel:
+                continue
             f = copy.deepcopy(w.files[rel])
             rules = list(f["rules"])
             if rng.random() < 0.5 and rules:
@@ -857,6 +1165,19 @@ class Runner:
             args += [s, ",".join(inputs)]
         rc, out = self.sh([self.exe, "session", os.path.join(root, "shared"), os.path.join(root, "user")] + args, self.env, timeout)
         return rc, [l for l in out.splitlines() if l.startswith("cand ")]
+
+
+def cycle(runner, root, pairs, now, timeout=300):
+    """one process: sessions (kept open), a full deployment, new sessions.  Returns (rc, phase-1 lines, phase-2 lines, raw)"""
+    args = []
+    for sid, inputs in pairs:
+        args += [sid, ",".join(inputs)]
+    env = dict(runner.env)
+    env["VERIF_NOW"] = str(now)
+    rc, out = runner.sh([runner.exe, "cycle", os.path.join(root, "shared"), os.path.join(root, "user")] + args, env, timeout)
+    l1 = ["cand " + l[6:] for l in out.splitlines() if l.startswith("cand1 ")]
+    l2 = ["cand " + l[6:] for l in out.splitlines() if l.startswith("cand2 ")]
+    return rc, l1, l2, out
 
 
 def unhex(h):
